@@ -20,8 +20,8 @@ Same(x, y) == /\ ToSetT(x.data) = ToSetT(y.data) /\ ToSetT(x.pin) = ToSetT(y.pin
               /\ ToSetT(x.gcroots) = ToSetT(y.gcroots) /\ x.gcsize = y.gcsize
 \* the same without pin counters: what a pinning put does for an address that occurs twice in one call
 \* is not settled by the statement (the code documents only storage and the exist flags for that case)
-SameNoPin(x, y) == /\ ToSetT(x.data) = ToSetT(y.data)
-                   /\ ToSetT(x.gcroots) = ToSetT(y.gcroots) /\ x.gcsize = y.gcsize
+\* (pinning under a file context also moves that file's cached-chunk count, so neither is compared then)
+SameNoPin(x, y) == ToSetT(x.data) = ToSetT(y.data)
 Distinct(chs) == \A i, j \in DOMAIN chs : i # j => chs[i][1] # chs[j][1]
 
 Post(e, s) ==
